@@ -24,3 +24,15 @@ Proof.
   destruct (Bcompare_not_nan t x Ht Hx) as [c Hc]. rewrite Hc in H.
   rewrite Bcompare_swap, Hc. destruct c; cbn in *; try discriminate; reflexivity.
 Qed.
+
+Lemma f32_oge_total (a b : f32) : oge F32ops a b = true \/ oge F32ops b a = true.
+Proof.
+  unfold oge, fge. cbn [fisnan fle F32ops]. unfold isnan32, le32.
+  destruct (is_nan a) eqn:Ha; [left; reflexivity|].
+  destruct (is_nan b) eqn:Hb; [right; reflexivity|]. cbn [orb].
+  unfold Bleb, SpecFloat.SFleb.
+  change (SpecFloat.SFcompare (B2SF b) (B2SF a)) with (Bcompare b a).
+  change (SpecFloat.SFcompare (B2SF a) (B2SF b)) with (Bcompare a b).
+  destruct (Bcompare_not_nan b a Hb Ha) as [c Hc]. rewrite (Bcompare_swap _ _ b a), Hc.
+  destruct c; cbn; auto.
+Qed.
